@@ -77,7 +77,7 @@ Definition assert_max_spread2 (max_spread : option Z) (ret_plus_fees spread : Z)
   let ms := Z.min (match max_spread with Some m => m | None => DEFAULT_SPREAD2 end) MAX_SPREAD_CAP2 in
   do den <- padd P128 ret_plus_fees spread;
   do q <- dec_from_ratio P256 spread den;
-  ensure (negb (ms <? q)) E_OTHER.
+  ensure (negb (ms <? q)) E_SLIPPAGE.
 
 Definition swap2 (p : pool2) (i x : Z) (max_spread : option Z) : outcome (pool2 * eff2) :=
   do r0 <- reserve2 0 p; do r1 <- reserve2 1 p;
